@@ -46,7 +46,7 @@ class Ctx:
         self.marks = []  # interesting future instants: deadlines, stamp + tick
         self.lines = []
         self.maybe = set()  # keys that were written at some point (rough)
-        self.cur_ttl = ttl
+        self.cur_ttl = self.ttl
         self.nops = 0
 
     def fresh_val(self):
@@ -359,6 +359,7 @@ def gen_c19(rng, kind, maxops=40):
     for _ in range(n):
         gen_op(c, insts=(0, 1))
         if rng.random() < 0.4:
+            c.advance()
             c.emit(1, gen_noeffect(c), tag="x")
     drain(c, insts=(0, 1))
     ts, lf, val, seed = variant(rng)
